@@ -105,6 +105,16 @@ def check_ubi(sh, mods, ubi, cell, U0, eps, case):
     if np.abs(eps).max() == 0:
         if not close(g.unitcell, cell, 1e-9): return bad("decompose:cell-not-recovered", {"got": g.unitcell, "expected": cell})
         if not close(U, U0, 1e-9): return bad("decompose:rotation-not-recovered", {"got": U, "expected": U0})
+    # the same grain carrying a reference (strain-free) unit cell, as indexing.do_index and the dataset loaders attach: the reference
+    # is what strain is measured against, it does not change what the grain reports about its own lattice
+    for when in ("before", "after"):
+        g2 = grain_m.grain(ubi.copy())
+        if when == "after":
+            g2.B, g2.U
+        g2.ref_unitcell = ucm.unitcell(cell, "P")
+        for nm in ("unitcell", "B", "U", "UB", "mt", "rmt") + (("Rod",) if ang < 179.0 else ()):
+            if not close(getattr(g2, nm), getattr(g, nm), 1e-12):
+                return bad("grain.%s:changes-when-a-reference-unit-cell-is-attached" % nm, {"got": getattr(g2, nm), "expected": getattr(g, nm), "attached": when + " first read"})
     # unitcell class
     uc = ucm.unitcell(ucell)
     if not close(uc.B, Bo): return bad("unitcell.B", {"got": uc.B, "expected": Bo})
